@@ -1,0 +1,6 @@
+//go:build !verif
+
+package fsstore
+
+// verifHook is a no-op unless built with the "verif" tag (see verifhook_on.go).
+func verifHook(point string, paths ...string) error { return nil }
